@@ -5,11 +5,14 @@ UNITS = {
         "spec": _p("spec/checkfile_spec.rs"),
         "overlays": _p("contracts/b3sum.vc"),
         # R17 (anyhow macros) and R19d (`for b in &mut <local array>`) are opt-in extraction rules
-        "opts": {"anyhow": True, "array_iter_mut": ["hash_bytes"]},
+        # R21 (`print_model`): stdout is a ghost log threaded through the listed free functions
+        "opts": {"anyhow": True, "array_iter_mut": ["hash_bytes"],
+                 "print_model": ["hash_one_input", "write_hex_output", "write_raw_output"]},
         "rlimit": 30,
         "broadcast": False,   # prelude/core.rs (vf_lemmas) is not part of this unit
         "doc": "b3sum checkfile functions (hex_half_byte, check_for_invalid_characters, unescape, split_*_check_line, "
-               "parse_check_line, filepath_to_string) against a spec of the checkfile format over vstd's UTF-8-aware "
+               "parse_check_line, filepath_to_string) and its printing functions (hash_one_input, write_hex_output over a ghost "
+               "stdout log) against a spec of the checkfile format over vstd's UTF-8-aware "
                "str model",
     },
 }
